@@ -41,6 +41,10 @@ func strData(v reflect.Value) (uintptr, uintptr) {
 // count=true it counts those that are also in ms.
 func walkMem(v reflect.Value, ms *memSet, count bool, n *int) {
 	switch v.Kind() {
+	case reflect.Interface:
+		if !v.IsNil() {
+			walkMem(v.Elem(), ms, count, n)
+		}
 	case reflect.Ptr:
 		if v.IsNil() {
 			return
@@ -103,7 +107,9 @@ func walkMem(v reflect.Value, ms *memSet, count bool, n *int) {
 		}
 		it := v.MapRange()
 		for it.Next() {
-			walkMem(it.Key(), ms, count, n)
+			if it.Key().Kind() != reflect.String { // string keys are immutable: sharing them shares nothing mutable
+				walkMem(it.Key(), ms, count, n)
+			}
 			walkMem(it.Value(), ms, count, n)
 		}
 	}
